@@ -23,6 +23,10 @@ func main() {
 		m.Close()
 		return
 	}
+	if len(os.Args) >= 2 && os.Args[1] == "c20stress" {
+		c20StressMain(os.Args[2:])
+		return
+	}
 	if len(os.Args) < 3 || os.Args[1] != "check" {
 		fmt.Fprintln(os.Stderr, "usage: verifh check Cxx [--tier quick|thorough] [--seed N] [--coqinfo file] [--evidence file] [--model path]")
 		os.Exit(2)
